@@ -296,7 +296,7 @@ func (e *c08Explorer) runConfig(base vcrash.FS, ingest []int, skipSort, keepMeta
 		})
 	}
 	// (2) single faults
-	kinds := []string{"write", "sync", "rename", "create", "seek", "remove"}
+	kinds := []string{"write", "sync", "rename", "create", "seek", "remove", "read"}
 	for _, kind := range kinds {
 		// a failing write comes in three flavours: a plain I/O error, "no space left" with nothing written, and
 		// "no space left" after the first half of the buffer went to the file (the next attempt succeeds in all three)
